@@ -59,6 +59,7 @@ import (
 	"github.com/projectcalico/calico/cni-plugin/pkg/ipamplugin"
 	cnitypes "github.com/projectcalico/calico/cni-plugin/pkg/types"
 	"github.com/projectcalico/calico/libcalico-go/lib/apiconfig"
+	"github.com/projectcalico/calico/libcalico-go/lib/backend/model"
 	"github.com/projectcalico/calico/libcalico-go/lib/clientv3"
 	cerrors "github.com/projectcalico/calico/libcalico-go/lib/errors"
 	"github.com/projectcalico/calico/libcalico-go/lib/ipam"
@@ -246,6 +247,11 @@ func (sc *scenario) run(fp faultPlan) (*outcome, error) {
 		rec.NoteDS(asErr(op.Err, &uc), hard)
 		if op.Applied != casstore.FaultNone {
 			o.faultKind = op.Applied.String()
+			// The listed finding has one exact shape: the reply to the committed block update of an ADD
+			// was lost.  Any other lost reply keeps a different identity.
+			if _, isBlock := op.Key.(model.BlockKey); op.Applied == casstore.FaultLostReply && !(isBlock && op.Kind == casstore.OpUpdate && op.Committed && rec.Step.Kind == "CNI-ADD") {
+				o.faultKind = "lost-reply-elsewhere"
+			}
 			o.applied = fmt.Sprintf("%s at datastore call %d (%s %s) of op#%d %s committed=%v", op.Applied, ncalls, op.Kind, op.Path, rec.ID, rec.Step.Kind, op.Committed)
 		}
 	}
